@@ -236,9 +236,12 @@ def ob_models_one_process():
     def body():
         from torchtree.core.parameter import Parameter
         from torchtree.evolution.site_model import InvariantSiteModel, WeibullSiteModel
+        from vt.runner import default_dtype
         P = lambda v, dt: Parameter(None, torch.tensor(v, dtype=dt))
         n = 0
-        for first_dtype in (torch.float32, torch.float64):
+        # the library's own default dtype is float32 (tensors built without a dtype, e.g. from arange, follow it); the checker's is float64
+        for first_dtype, dflt in ((torch.float32, torch.float64), (torch.float64, torch.float64), (torch.float64, torch.float32)):
+          with default_dtype(dflt):
             for K in (1, 2, 3, 5, 6, 7, 10):
                 # models built first, in the same process
                 WeibullSiteModel("w32", P([0.7], first_dtype), K).rates()
@@ -267,6 +270,51 @@ def ob_models_one_process():
                 "statement": "%d site models built after other models in the same process have exact probabilities, float64 results and mean rate mu" % n}
     from vt.runner import Ob
     return Ob("C05.models_in_one_process", "B", body, clause="the postconditions do not depend on which site models were built before (bounded)", funcs=FUNCS)
+
+
+def _inplace_reassign_problems():
+    """the idiom the library's own operators use to update a parameter: take its tensor, modify it in place, assign it back
+    (`t = p.tensor; t[i] *= s; p.tensor = t`): the model must describe the NEW values"""
+    from torchtree.core.parameter import Parameter
+    from torchtree.evolution.site_model import InvariantSiteModel, WeibullSiteModel
+    t64 = lambda v: torch.tensor(v, dtype=torch.float64)
+    bad, n = [], 0
+    for kind in ("invariant", "weibull"):
+        for which in ("inv", "mu", "shape"):
+            if kind == "invariant" and which == "shape":
+                continue
+            ps = {"inv": Parameter("inv", t64([0.15])), "mu": Parameter("mu", t64([1.7])), "shape": Parameter("shape", t64([0.6]))}
+            m = InvariantSiteModel("sm", ps["inv"], ps["mu"]) if kind == "invariant" else WeibullSiteModel("sm", ps["shape"], 3, ps["inv"], ps["mu"])
+            m.rates(), m.probabilities()
+            t = ps[which].tensor
+            with torch.no_grad():
+                t.mul_(2.0)
+            ps[which].tensor = t
+            r, p_ = m.rates(), m.probabilities()
+            q = {k: Parameter(k + "_f", v.tensor.detach().clone()) for k, v in ps.items()}
+            f = InvariantSiteModel("f", q["inv"], q["mu"]) if kind == "invariant" else WeibullSiteModel("f", q["shape"], 3, q["inv"], q["mu"])
+            n += 1
+            mean = float((r * p_).sum())
+            if not torch.allclose(r, f.rates(), rtol=1e-12, atol=1e-14) or not torch.allclose(p_, f.probabilities(), rtol=1e-12, atol=1e-14):
+                bad.append("%s site model, %s doubled in place and assigned back (p.tensor = t): rates %s / probabilities %s, a fresh model at the current values has %s / %s "
+                           "(weighted mean rate %.6g, relative rate now %.6g, invariant proportion now %.6g)" % (
+                               kind, which, r.tolist(), p_.tolist(), f.rates().tolist(), f.probabilities().tolist(), mean, float(ps["mu"].tensor), float(ps["inv"].tensor)))
+    return bad, n
+
+
+def ob_inplace_reassign():
+    def body():
+        bad, n = _inplace_reassign_problems()
+        if bad:
+            raise Refuted(bad[0], witness={"problems": bad}, confirmed=True, replay={"kind": "custom", "contract": "C05", "func": "replay_inplace_reassign", "args": {}})
+        return {"backend": "concrete", "cases": n, "statement": "%d updates by in-place edit + assignment of the same tensor object: rates and probabilities are those of the current values" % n}
+    from vt.runner import Ob
+    return Ob("C05.sequence.inplace_then_reassign", "B", body, clause="postconditions hold for the current values after an update written as in-place edit + re-assignment (the operators' idiom)", funcs=FUNCS)
+
+
+def replay_inplace_reassign(args):
+    bad, _ = _inplace_reassign_problems()
+    return (False, bad[0]) if bad else (True, "held")
 
 
 def replay_models_one_process(args):
@@ -303,6 +351,7 @@ def obligations(tier, seed):
                         add("C05.sequence.weibull[K=%d,inv=%s,mu=%s,update %s then %s]" % (K_, with_inv, with_mu, "+".join(up), order), "scn_sequence",
                             ("weibull", order, with_inv, with_mu, up, K_), "postconditions hold for the current values after an update, in any request order")
     obs.append(ob_models_one_process())
+    obs.append(ob_inplace_reassign())
     for which in ("inv", "mu"):
         add("C05.notification.invariant[update %s]" % which, "scn_notification", ("invariant", which), "a listener reading the model inside the change notification sees the current values")
     for K_ in (1, 3):
